@@ -416,7 +416,7 @@ fn run(ctx: &mut Ctx) {
                     }
                     ctx.progress(job);
                     judge(ctx, &paths, tname, syn, prim, place, &b);
-                    if job % 1499 == 7 {
+                    if job % 1499 == 7 || ctx.rep.samples.is_empty() {
                         ctx.rep.sample(json!({"find": argv_for(tname, prim, place, &b.iter().take(3).map(|x| x.1.clone()).collect::<Vec<_>>()), "paths": paths.iter().take(8).collect::<Vec<_>>()}));
                     }
                 }
